@@ -202,6 +202,7 @@ func (s *MonitoredItemService) CreateMonitoredItems(sc *uasc.SecureChannel, r ua
 		return nil, errors.New("not your subscription, bro")
 	}
 
+	updated := make(map[string]bool)
 	for i := range req.ItemsToCreate {
 		itemreq := req.ItemsToCreate[i]
 		nodeid := itemreq.ItemToMonitor.NodeID
@@ -242,7 +243,14 @@ func (s *MonitoredItemService) CreateMonitoredItems(sc *uasc.SecureChannel, r ua
 		// do an initial update for the nodeids in the background.
 		// These lock the mutex so we can't do them inline here.
 		// This will cause them to happen once we unlock.
-		go s.ChangeNotification(nodeid)
+		// One update per node is enough: it reports the value to every
+		// item of the node. An update per item makes a request with n
+		// items of one node queue n goroutines that send n notifications
+		// each while they hold the service lock.
+		if key := nodeid.String(); !updated[key] {
+			updated[key] = true
+			go s.ChangeNotification(nodeid)
+		}
 
 	}
 
